@@ -348,6 +348,10 @@ def s14_free(decls):
         if e[0] == "cond" and all_const(e[1]):
             # a constant condition folds `c : v` to an implicitly typed constant (S14 family)
             return False
+        if e[0] == "cond" and e[2][0] == "proj" and lit_const(e[2]):
+            # known finding S31 (single-condition form): `c : (("t", k) | "u")` - a projected typed literal as the
+            # conditional value - copies the (absent) input count of u instead of emitting k
+            return False
         if e[0] == "cond" and e[1][0] in ("and", "or") and e[2][0] not in ("int", "lit", "var") and lit_const(e[2]):
             # known finding S31: a multi-condition `c : v` whose value is a compound constant expression over
             # typed literals copies the (absent) input count instead of emitting the folded constant
